@@ -240,6 +240,23 @@ def main(argv=None):
             if reproduced and not listed:
                 violations.append((o, path, True))
 
+    # --- result generators of assumed contracts must cover what the function really returns -------------------
+    real_shapes, made_shapes = {}, {}
+    for k, v in covers.items():
+        if v and k.startswith('real-shape|'):
+            real_shapes.setdefault(k.split('|')[1], set()).add(k.split('|')[2])
+        if v and k.startswith('made-shape|'):
+            made_shapes.setdefault(k.split('|')[1], set()).add(k.split('|')[2])
+    generator_gaps = []
+    for q in sorted(set(real_shapes) & set(made_shapes)):
+        declared = getattr(reg.contracts.get(q), 'arg_dependent_shapes', ())
+        for sh in sorted(real_shapes[q] - made_shapes[q] - set(declared)):
+            generator_gaps.append('%s really returns a result of shape %s which the result generator of its contract never '
+                                  'produces at call sites (generated: %s)' % (q, sh, sorted(made_shapes[q])))
+    # a gap means callers were verified against fewer behaviours than the callee has: the proof is incomplete (exit 2)
+    for g in generator_gaps:
+        incomplete.append('result-generator gap: ' + g)
+
     # --- evidence ------------------------------------------------------------------
     vac = []
     if n_total == 0:
